@@ -377,11 +377,6 @@ def premerge(acc, n, path=()):
             tgt = remove_at(acc, parse_path(c.v))
             if tgt is None:
                 raise ModelError('PremergeError', f'!prev {c.v!r}: no such node', here)
-            dest = lookup(acc, here)
-            if dest is not None and dest.composed() and tgt.composed():
-                # "places the entire previous subtree of p at q": the statement is silent on whether content that q already holds is
-                # kept (the library merges a subtree taken from a mapping and replaces with one taken out of a list)
-                raise OutOfDomain('!prev onto a destination that already holds a container')
             reinherit(tgt, cdel, cnew)
             n.ch[k] = tgt
         elif c.kind == 'append':
